@@ -2,6 +2,7 @@ import PB.Model.FsAtomic
 import PB.Spec.FsCrash
 import PBProofs.Lemmas.FsAtomic
 import PBProofs.Lemmas.FsWriters
+import PBProofs.Lemmas.FsDownload
 /-
 C17 — Files are published atomically: old content or new content, never a fragment.
 
@@ -292,6 +293,279 @@ theorem fetchFile_explored : ∀ cfg ∈ fetchConfigs,
         (chkInit (worldFetch cfg.1 cfg.2.1) destF (fetchOld cfg) (some (.file (written exChunks), []))) 0) = true := by
     decide +kernel
   exact fun cfg hc => List.all_eq_true.1 h cfg hc
+
+/-! ### The download writer: when does fetchFile publish? (PB.Model.FsDownload)
+
+The two comparisons of the code — `resp.StatusCode != http.StatusOK` in makeRequest and `resp.ContentLength != n`
+after io.Copy — are the definitions `PB.Gen.FsDownload.statusRefused` / `lengthRefused`, regenerated from
+updater/fetch.go on every run. The theorems below are about whatever the source says today. -/
+
+/-- fetchFile's decision, guard by guard: it reaches CloseAtomicallyReplace iff a required signature was
+    verifiable, the request succeeded, neither the status guard nor the length guard refuses, io.Copy returned no
+    error, and a required signature matches the bytes written. -/
+theorem fetch_publish_iff (v : Option Verif) (r : Resp) :
+    (fetchDecision v r).publishes = true ↔
+      (∀ x, v = some x → x.policy = .require → x.sigOk = true ∧ r.digestOk = true) ∧
+      r.reqErr = false ∧ PB.Gen.FsDownload.statusRefused (r.status : Int) = false ∧ r.copyErr = false ∧
+      PB.Gen.FsDownload.lengthRefused r.contentLength r.got = false := by
+  unfold fetchDecision
+  cases v with
+  | none => cases r.reqErr <;> cases PB.Gen.FsDownload.statusRefused (r.status : Int) <;> cases r.copyErr <;>
+      cases PB.Gen.FsDownload.lengthRefused r.contentLength r.got <;> simp [Outcome.publishes]
+  | some x =>
+    obtain ⟨pol, sigOk⟩ := x
+    cases pol <;> cases sigOk <;> cases r.digestOk <;> cases r.reqErr <;>
+      cases PB.Gen.FsDownload.statusRefused (r.status : Int) <;> cases r.copyErr <;>
+      cases PB.Gen.FsDownload.lengthRefused r.contentLength r.got <;> simp [Outcome.publishes]
+
+/-- THE decision theorem. For every behaviour of server and connection (any status, any framing, any announced
+    length, any number of body bytes arriving, any way the stream ends, with or without transparent gzip) and any
+    verification setting: if fetchFile reaches CloseAtomicallyReplace then the status was 200, the length was
+    announced (`Content-Length: l`, no transparent decompression), all `l` announced bytes arrived, exactly these
+    `l` bytes were written to the pending file, and io.Copy returned no error. A response whose body is cut short
+    — by an early close or a reset, in any framing — is never published. -/
+theorem fetch_publishes_only_complete (v : Option Verif) (w : Wire)
+    (h : (fetchDecision v (transport w)).publishes = true) :
+    w.status = 200 ∧ ∃ l, w.complete l ∧ (transport w).got = l ∧ (transport w).copyErr = false := by
+  have h' := (fetch_publish_iff v (transport w)).1 h
+  obtain ⟨_, hreq, hst, hcp, hlen⟩ := h'
+  unfold transport at hreq hst hcp hlen ⊢
+  cases hc : w.connects with
+  | false => simp [hc] at hreq
+  | true =>
+    cases hg : w.gzip with
+    | true =>
+      simp only [hc, hg, Bool.not_true, Bool.false_eq_true, if_false, if_true] at hlen
+      simp [PB.Gen.FsDownload.lengthRefused] at hlen <;> omega
+    | false =>
+      simp only [hc, hg, Bool.not_true, Bool.false_eq_true, if_false] at hst hcp hlen ⊢
+      have hs200 : w.status = 200 := by
+        simp [PB.Gen.FsDownload.statusRefused] at hst
+        omega
+      refine ⟨hs200, ?_⟩
+      cases hf : w.framing with
+      | length l =>
+        simp only [hf, framed, decide_eq_false_iff_not, Nat.not_lt] at hcp hlen ⊢
+        refine ⟨l, ⟨hc, hg, hf, hcp⟩, Nat.min_eq_right hcp, ?_⟩
+        simp [hcp]
+      | chunked =>
+        simp [hf, framed, PB.Gen.FsDownload.lengthRefused] at hlen <;> omega
+      | close =>
+        simp [hf, framed, PB.Gen.FsDownload.lengthRefused] at hlen <;> omega
+
+/-- What the code does with a response that does not announce its length (chunked or close-delimited): it
+    REFUSES it, complete or not (resp.ContentLength is -1 and never equals the number of bytes written). -/
+theorem fetch_refuses_unannounced_length (v : Option Verif) (w : Wire) (h : ∀ l, w.framing ≠ .length l) :
+    (fetchDecision v (transport w)).publishes = false := by
+  cases hp : (fetchDecision v (transport w)).publishes with
+  | false => rfl
+  | true =>
+    obtain ⟨_, l, ⟨_, _, hf, _⟩, _⟩ := fetch_publishes_only_complete v w hp
+    exact absurd hf (h l)
+
+/-- … and likewise a response the transport decompresses transparently (`Content-Encoding: gzip`). -/
+theorem fetch_refuses_transparent_gzip (v : Option Verif) (w : Wire) (h : w.gzip = true) :
+    (fetchDecision v (transport w)).publishes = false := by
+  cases hp : (fetchDecision v (transport w)).publishes with
+  | false => rfl
+  | true =>
+    obtain ⟨_, l, ⟨_, hg, _, _⟩, _⟩ := fetch_publishes_only_complete v w hp
+    rw [h] at hg; cases hg
+
+/-- With a required signature nothing is published unless the signature was verified and the bytes written have
+    the signed hash (so a truncated or altered body is refused even if every other guard were to let it pass). -/
+theorem fetch_required_signature (x : Verif) (hx : x.policy = .require) (r : Resp)
+    (h : (fetchDecision (some x) r).publishes = true) : x.sigOk = true ∧ r.digestOk = true :=
+  ((fetch_publish_iff (some x) r).1 h).1 x rfl hx
+
+/-- Not vacuous: a complete, announced 200 response IS published (extra bytes after the announced ones and the
+    way the connection ends afterwards do not matter). -/
+theorem fetch_complete_is_published (w : Wire) (l : Nat) (hc : w.complete l) (hs : w.status = 200) :
+    fetchDecision none (transport w) = .publish false := by
+  obtain ⟨h1, h2, h3, h4⟩ := hc
+  have hmin : min w.arrived l = l := Nat.min_eq_right h4
+  have hnl : ¬ w.arrived < l := Nat.not_lt.2 h4
+  simp [fetchDecision, transport, framed, h1, h2, h3, hs, hmin, hnl, PB.Gen.FsDownload.statusRefused,
+    PB.Gen.FsDownload.lengthRefused]
+
+def mkWire (status : Nat) (f : Framing) (arrived : Nat) (e : Ending) : Wire :=
+  { connects := true, status := status, framing := f, gzip := false, arrived := arrived, ending := e, plain := 0, gzipOk := true,
+    digestOk := true }
+
+/-- The seeded case, concretely: 200, no Content-Length, no chunking, connection closed after 102400 of 1048576
+    bytes — refused. -/
+example : fetchDecision none (transport (mkWire 200 .close 102400 .fin)) = .abort := by decide
+example : fetchDecision none (transport (mkWire 200 (.length 1048576) 102400 .fin)) = .abort := by decide
+example : fetchDecision none (transport (mkWire 206 (.length 100) 100 .fin)) = .abort := by decide
+example : fetchDecision (some ⟨.require, true⟩) (transport { mkWire 200 (.length 100) 100 .fin with digestOk := false }) = .abort := by decide
+example : fetchDecision (some ⟨.warn, true⟩) (transport { mkWire 200 (.length 100) 100 .fin with digestOk := false }) = .publish false := by decide
+example : fetchDecision (some ⟨.require, true⟩) (transport (mkWire 200 (.length 100) 100 .fin)) = .publish true := by decide
+example : fetchDecision (some ⟨.require, false⟩) (transport (mkWire 200 (.length 100) 100 .fin)) = .refusedEarly := by decide
+
+/-- System-call level, unbounded (every file system state, every pattern of failing calls and every stopping
+    point, every chunking, every list of folders, any number of attempts, DownloadUpdates or GetFile, with or
+    without verification): if none of the responses is a complete announced 200 response, the download issues NO
+    rename at all — the only call by which these programs change what a path names. -/
+theorem download_renames_only_complete (dirs : List (Path × Nat)) (regTmp dest : Path) (v : Option Verif)
+    (sig : Option SigFile) (getFile : Bool) (attempts : List (Wire × List Seg))
+    (h : ∀ wc ∈ attempts, ¬ (wc.1.status = 200 ∧ ∃ l, wc.1.complete l)) (s : FS) (o : List Choice) :
+    ∀ c ∈ runProg (downloadP dirs regTmp dest v sig getFile attempts) s o, ∀ a b, c ≠ .rename a b := by
+  apply NoRename.run
+  unfold downloadP
+  apply noRename_attemptsK
+  · intro b; exact .ret _
+  · intro wc hwc
+    cases hp : (fetchDecision v (transport wc.1)).publishes with
+    | false => rfl
+    | true =>
+      obtain ⟨h200, l, hc, _⟩ := fetch_publishes_only_complete v wc.1 hp
+      exact absurd ⟨h200, l, hc⟩ (h wc hwc)
+
+/-! Exploration of the download program over server behaviours on concrete worlds. -/
+
+/-- The resource on the server: 5000 bytes (content 1). -/
+def dlBody : Content := written exChunks
+
+/-- The bytes io.Copy writes for a response, as the two chunks of the example cut to `got` bytes. -/
+def dlChunks (w : Wire) : List Seg := takeBytes (transport w).got dlBody
+
+/-- Statuses 200/206/301/404/500; announced length exact (5000) / shorter (4096) / longer (6000) / absent
+    (chunked, close-delimited); 0 / 4096 / 5000 body bytes arriving; orderly close / reset / chunk terminator;
+    no response at all; transparent gzip (complete and cut). -/
+def dlWires : List Wire :=
+  [{ mkWire 200 (.length 5000) 0 .fin with connects := false },
+   mkWire 206 (.length 5000) 5000 .fin, mkWire 301 (.length 5000) 5000 .fin, mkWire 404 (.length 5000) 5000 .fin,
+   mkWire 500 (.length 5000) 5000 .fin, mkWire 206 (.length 4096) 4096 .fin,
+   { mkWire 200 (.length 300) 300 .fin with gzip := true, plain := 5000 },
+   { mkWire 200 (.length 300) 100 .fin with gzip := true, plain := 4096, gzipOk := false }] ++
+  ([Framing.length 5000, .length 4096, .length 6000, .chunked, .close].flatMap fun f =>
+    [0, 4096, 5000].flatMap fun a => [Ending.fin, .reset].map fun e => mkWire 200 f a e) ++
+  [mkWire 200 .chunked 5000 .terminated, mkWire 200 .chunked 4096 .terminated, mkWire 200 .chunked 0 .terminated]
+
+/-- What the destination may show besides the old state: the COMPLETE announced body if the response is a
+    complete announced 200 response — and nothing new otherwise. (This is the specification, not the decision
+    function of the code.) -/
+def dlNew (old : Obs) (w : Wire) : Obs :=
+  match w.framing with
+  | .length l => if w.connects && !w.gzip && w.status == 200 && decide (l ≤ w.arrived) then some (.file (takeBytes l dlBody), []) else old
+  | _ => old
+
+/-- fetchFile as run by DownloadUpdates, one attempt, for EVERY server behaviour of `dlWires`, resource folder
+    present (old file present) or absent, every pattern of failing system calls and every stopping point: a reader
+    sees the old state, or — only for a complete announced 200 response — the complete announced body; only
+    temporary names are created; the destination is never absent unless it was. In particular every truncated
+    body (announced or not, closed or reset) leaves the old state at every instant. -/
+theorem download_explored : ∀ w ∈ dlWires, ∀ cfg ∈ [(true, some exOldFile), (false, none)],
+    checkAll destF (fetchOld (cfg.1, cfg.2, false, false)) (dlNew (fetchOld (cfg.1, cfg.2, false, false)) w) exTmp
+      (downloadP [(["R"], 0o755), (["R", "dst"], 0o755)] ["R", "tmp"] destF none none false [(w, dlChunks w)])
+      (chkInit (worldFetch cfg.1 cfg.2) destF (fetchOld (cfg.1, cfg.2, false, false))
+        (dlNew (fetchOld (cfg.1, cfg.2, false, false)) w)) 0 = true := by
+  have h : dlWires.all (fun w => [(true, some exOldFile), (false, none)].all fun cfg =>
+      checkAll destF (fetchOld (cfg.1, cfg.2, false, false)) (dlNew (fetchOld (cfg.1, cfg.2, false, false)) w) exTmp
+        (downloadP [(["R"], 0o755), (["R", "dst"], 0o755)] ["R", "tmp"] destF none none false [(w, dlChunks w)])
+        (chkInit (worldFetch cfg.1 cfg.2) destF (fetchOld (cfg.1, cfg.2, false, false))
+          (dlNew (fetchOld (cfg.1, cfg.2, false, false)) w)) 0) = true := by
+    decide +kernel
+  intro w hw cfg hc
+  exact List.all_eq_true.1 (List.all_eq_true.1 h w hw) cfg hc
+
+/-- Retry: a first attempt whose close-delimited body is cut at 4096 bytes (refused, temporary file removed),
+    then a complete announced answer — through GetFile and through DownloadUpdates, no injected failure: the whole
+    run is accepted with new = the complete body (so the fragment of the first attempt is never visible, at no
+    crash point), only temporary names are created, the complete body is in place at the end and no stray file
+    is left in the temporary directory. -/
+theorem download_retry_path_safe : ∀ getFile ∈ [true, false],
+    let w1 := mkWire 200 .close 4096 .fin
+    let w2 := mkWire 200 (.length 5000) 5000 .fin
+    let t := runProg (downloadP [(["R"], 0o755), (["R", "dst"], 0o755)] ["R", "tmp"] destF none none getFile
+      [(w1, dlChunks w1), (w2, dlChunks w2)]) (worldFetch true (some exOldFile)) (oracleOf 0 (List.replicate 40 false))
+    safePublish (worldFetch true (some exOldFile)) destF (worldOld (some exOldFile)) (some (.file dlBody, [])) t = true ∧
+    onlyTemp destF exTmp t = true ∧
+    vview (run (worldFetch true (some exOldFile)) t) destF = some (.file dlBody, []) ∧
+    (run (worldFetch true (some exOldFile)) t).names.all (fun e => !below ["R", "tmp"] e.1) = true := by
+  decide +kernel
+
+/-- Not vacuous: the same exploration FAILS for a writer that publishes a close-delimited body as it came
+    (length guard skipped when the length is unknown). -/
+example : checkAll destF (worldOld (some exOldFile)) (worldOld (some exOldFile)) exTmp
+    (.sys (.createTemp ["R", "tmp"] ".f") fun r =>
+      match r with
+      | .created t fd => writeAllP fd (dlChunks (mkWire 200 .close 4096 .fin)) (cleanupP t fd false (.ret false))
+          (closeAtomicallyReplaceK t fd destF fun _ => .ret false)
+      | _ => .ret false)
+    (chkInit (worldFetch true (some exOldFile)) destF (worldOld (some exOldFile)) (worldOld (some exOldFile))) 0 = false := by
+  decide +kernel
+
+/-! ### The unpack writers -/
+
+/-- File.Unpack publishes only a stream that was read to its end without error, and only when the unpacked file
+    does not exist yet. -/
+theorem fileUnpack_publishes_only_complete (there : Bool) (g : GzFile) (h : fileUnpackPublishes there g = true) :
+    there = false ∧ g.headerOk = true ∧ g.streamOk = true := by
+  simp only [fileUnpackPublishes, Bool.and_eq_true, Bool.not_eq_true'] at h
+  exact ⟨h.1.1, h.1.2, h.2⟩
+
+/-- (unpacked file exists, header valid, stream valid) × old state -/
+def unpackConfigs : List (GzFile × Option Inode) :=
+  [(⟨true, true⟩, none), (⟨true, true⟩, some exOldFile), (⟨true, false⟩, none), (⟨true, false⟩, some exOldFile),
+   (⟨false, true⟩, none), (⟨false, false⟩, none), (⟨false, false⟩, some exOldFile)]
+
+/-- File.Unpack for every kind of gzip file (bad header: refused before any file exists; error while reading —
+    corrupt data, bad trailer, truncated file, trailing garbage: Cleanup; valid), destination absent or present,
+    every failure pattern and stopping point: old, or — only for a valid stream onto an absent destination — the
+    complete unpacked content. -/
+theorem fileUnpack_explored : ∀ cfg ∈ unpackConfigs,
+    checkAll destF (worldOld cfg.2) (if fileUnpackPublishes cfg.2.isSome cfg.1 then some (.file dlBody, []) else worldOld cfg.2) exTmp
+      (fileUnpackD ["R", "tmp2"] ["R", "tmp"] destF cfg.1 exChunks)
+      (chkInit (worldFS cfg.2) destF (worldOld cfg.2)
+        (if fileUnpackPublishes cfg.2.isSome cfg.1 then some (.file dlBody, []) else worldOld cfg.2)) 0 = true := by
+  have h : unpackConfigs.all (fun cfg =>
+      checkAll destF (worldOld cfg.2) (if fileUnpackPublishes cfg.2.isSome cfg.1 then some (.file dlBody, []) else worldOld cfg.2) exTmp
+        (fileUnpackD ["R", "tmp2"] ["R", "tmp"] destF cfg.1 exChunks)
+        (chkInit (worldFS cfg.2) destF (worldOld cfg.2)
+          (if fileUnpackPublishes cfg.2.isSome cfg.1 then some (.file dlBody, []) else worldOld cfg.2)) 0) = true := by
+    decide +kernel
+  exact fun cfg hc => List.all_eq_true.1 h cfg hc
+
+/-- unpackZipArchive (decision level, every archive, every member size): the directory is renamed into place only
+    if the archive opened and EVERY member was delivered by its reader without error and written completely — a
+    corrupt or short member (flate error, checksum error, unexpected EOF) and a member larger than MaxUnpackSize
+    abort the unpacking. Proved over the regenerated `zipLimitChecked`: it fails for a copyFromZipArchive that
+    returns nil right after io.CopyN. -/
+theorem unpackZip_publishes_only_complete (opens : Bool) (members : List ZipMember)
+    (h : unpackZipPublishes opens members = true) :
+    opens = true ∧ ∀ m ∈ members, (zipCopy m).1 = m.size ∧ m.readErr = false := by
+  simp only [unpackZipPublishes, Bool.and_eq_true, List.all_eq_true, Bool.not_eq_true'] at h
+  refine ⟨h.1, fun m hm => ?_⟩
+  have h2 := h.2 m hm
+  have hc : PB.Gen.FsDownload.zipLimitChecked = true := by decide
+  simp only [zipCopy, zipCopyWith, hc, if_true] at h2 ⊢
+  by_cases h3 : m.size < PB.Gen.FsDownload.maxUnpackSize
+  · simp only [h3, if_true] at h2 ⊢
+    exact ⟨trivial, h2⟩
+  · simp only [h3, if_false] at h2 ⊢
+    by_cases h4 : m.size = PB.Gen.FsDownload.maxUnpackSize
+    · simp only [h4, if_true] at h2 ⊢
+      exact ⟨trivial, h2⟩
+    · simp [h4] at h2
+
+/-- Why the check after io.CopyN is needed (the defect found in round 3, as a theorem): for a copyFromZipArchive
+    that returns nil as soon as MaxUnpackSize bytes were copied, the statement above is FALSE — a member of
+    MaxUnpackSize+1 bytes is cut, accepted, and the directory is published. -/
+theorem unpackZip_limit_check_needed :
+    ¬ (∀ (members : List ZipMember), (members.all fun m => !(zipCopyWith false m).2) = true →
+        ∀ m ∈ members, (zipCopyWith false m).1 = m.size) := by
+  intro h
+  have := h [⟨PB.Gen.FsDownload.maxUnpackSize + 1, false⟩] (by decide) _ (List.mem_singleton.2 rfl)
+  revert this
+  decide
+
+/-- The limit itself is not a cut: a member of exactly MaxUnpackSize bytes is written completely, and its read
+    error (checksum verdict at the end) is still seen. -/
+example : zipCopy ⟨PB.Gen.FsDownload.maxUnpackSize, false⟩ = (PB.Gen.FsDownload.maxUnpackSize, false) := by decide
+example : zipCopy ⟨PB.Gen.FsDownload.maxUnpackSize, true⟩ = (PB.Gen.FsDownload.maxUnpackSize, true) := by decide
+example : (zipCopy ⟨PB.Gen.FsDownload.maxUnpackSize + 1, false⟩).2 = true := by decide
+example : unpackZipPublishes true [⟨100, false⟩, ⟨0, false⟩] = true := by decide
 
 /-- renameio.Symlink over an absent destination, an existing symlink and an existing regular file. -/
 theorem symlink_explored : ∀ old ∈ [none, some exOldLink, some exOldFile],
